@@ -458,26 +458,43 @@ def _inits(cname):
     return [0, 1, 2, 3]
 
 
+def _walk_tasks(thorough):
+    tasks = []
+    for i in range(4):
+        tasks.append(('Graph', i, 8 if thorough else 6))
+        tasks.append(('DirectedGraph', i, 8 if thorough else 7))
+    tasks.append(('Graph', 4, 7 if thorough else 5))
+    tasks.append(('DirectedGraph', 4, 6 if thorough else 4))
+    for L in range(4):
+        for R in range(4):
+            tasks.append(('BipartiteGraph', (L, R), 9 if thorough else 8))
+            tasks.append(('CompleteBipartiteGraph', (L, R), 3))
+    if thorough:
+        tasks += [('BipartiteGraph', (4, 3), 7), ('BipartiteGraph', (3, 4), 7), ('BipartiteGraph', (1, 5), 7)]
+    return tasks
+
+
 def bounded_walk(ctx):
     thorough = ctx.tier == 'thorough'
-    depth = {'Graph': 6 if thorough else 5, 'DirectedGraph': 6 if thorough else 5,
-             'BipartiteGraph': 6 if thorough else 5, 'CompleteBipartiteGraph': 3}
-    tasks = [(c, i, depth[c]) for c in CLASSES for i in _inits(c)]
-    tasks.sort(key=lambda t: -(sum(t[1]) if isinstance(t[1], tuple) else t[1] + 3))
+    tasks = _walk_tasks(thorough)
+    depth = sorted({(c, d) for c, i, d in tasks})
+    tasks.sort(key=lambda t: -((sum(t[1]) if isinstance(t[1], tuple) else t[1] + 3) * t[2]))
     with multiprocessing.get_context('fork').Pool(14) as pool:
         res = pool.map(walk, tasks, chunksize=1)
     ctx.bounds['histories'] = ('all sequences of length <= {} over add_edge / remove_edge (u,v in 0..n+1, n the current vertex count), '
                                'update_vertex_number(-1..n+1), 6-7 add_edges_from lists (empty, duplicates, refused edge in the middle, '
-                               'generator, lists) ; initial sizes 0..3 (bipartite 0..3 x 0..3); classes {}; memoised on the concrete '
-                               'object state').format(depth, list(CLASSES))
+                               'generator, lists) ; (class, initial size, length) = {}; memoised on the concrete '
+                               'object state').format('(class, depth) ' + str(depth), [(c, i, d) for c, i, d in sorted(tasks, key=repr)])
     ctx.rule('C16 histories: one case = one executed operation from one reachable concrete state (all views compared with the '
              'reference model afterwards); non-trivial iff the operation changes the abstract graph')
     tot = {}
     for t, r in zip(tasks, res):
         cname, init, d = t
-        ctx.case(('walk', cname, init, d, 'changing'), nontrivial=True, n=r['steps'] - r['refused'])
+        for k in range(r['steps'] - r['refused']):      # each step is a distinct (concrete state, operation) pair
+            ctx.case(('walk', cname, init, d, k), nontrivial=True)
         ctx.case(('walk', cname, init, d, 'refused-or-idle'), nontrivial=False, n=r['refused'])
-        ctx.case(('walk', cname, init, d, 'networkx'), nontrivial=True, n=r['nx'])
+        for k in range(r['nx']):
+            ctx.case(('walk-nx', cname, init, d, k), nontrivial=True)
         a = tot.setdefault(cname, {'steps': 0, 'states': 0, 'refused_or_idle': 0, 'max_vertices': 0})
         a['steps'] += r['steps']
         a['states'] += r['states']
